@@ -217,6 +217,64 @@ def pverdictFor (r : Reply) (i : Nat) : PVerdict :=
   | .connErr true => .okLost
   | .connErr false => .fail
 
+/-! ### fetchInitialOffset (ManagePartition) -/
+
+/-- what one attempt of the initial OffsetFetch meets -/
+inductive FetchAns
+  | ok                -- block with ErrNoError
+  | notCoord          -- ErrNotCoordinatorForConsumer: release the coordinator, retry
+  | loading           -- ErrOffsetsLoadInProgress: back off, retry
+  | reqErr            -- FetchOffset returned an error: release the coordinator, retry
+  | missing           -- no block for the partition: ErrIncompleteResponse, no retry
+  | other (k : Int)   -- any other KError: returned, no retry
+  deriving DecidableEq, Repr
+
+/-- one scripted attempt: does the coordinator lookup succeed (only consulted when no coordinator is
+    cached), and the answer to the fetch -/
+structure FetchAtt where
+  lk : Bool
+  ans : FetchAns
+  deriving DecidableEq, Repr
+
+inductive FetchOut
+  | ok (broker : Bool)                 -- the stored pair was fetched
+  | fail (e : Err) (broker : Bool)     -- ManagePartition returns the error; no pom is created
+  deriving DecidableEq, Repr
+
+/-- `fetchInitialOffset(topic, partition, retries)`: `b` = a coordinator is cached. An exhausted script means
+    the coordinator answers normally. -/
+def fetchInitial : Bool → Nat → List FetchAtt → FetchOut
+  | _, _, [] => .ok true
+  | b, r, a :: as =>
+    if b = false ∧ a.lk = false then
+      match r with
+      | 0 => .fail .lookup false
+      | r + 1 => fetchInitial false r as
+    else
+      match a.ans with
+      | .ok => .ok true
+      | .missing => .fail .incomplete true
+      | .other k => .fail (.code k) true
+      | .reqErr =>
+        match r with
+        | 0 => .fail .io true
+        | r + 1 => fetchInitial false r as
+      | .notCoord =>
+        match r with
+        | 0 => .fail (.code 16) true
+        | r + 1 => fetchInitial false r as
+      | .loading =>
+        match r with
+        | 0 => .fail (.code 14) true
+        | r + 1 => fetchInitial true r as
+
+/-- an attempt that cannot produce the stored pair but may be retried -/
+def FetchAtt.retryable (b : Bool) (a : FetchAtt) : Bool :=
+  (!b && !a.lk) || a.ans = .notCoord || a.ans = .loading || a.ans = .reqErr
+
+/-- case labels of `switch block.Err` in fetchInitialOffset (bridge: equal to the regenerated table) -/
+def fetchCases : List (List Int) := [[0], [16], [14]]
+
 structure Sys where
   parts : List PState
   broker : Bool
@@ -238,6 +296,7 @@ inductive Op
   | reply (r : Reply)         -- CommitOffset returned; handleResponse / handleError + releaseCoordinator
   | release (force : Bool)    -- releasePOMs
   | dropBroker                -- end of Close: om.broker = nil
+  | manageFailed (brokerAfter : Bool)  -- ManagePartition whose initial fetch failed: no pom, only the cache moves
   deriving DecidableEq, Repr
 
 /-- does the lookup of this step fail (a request is under way, no cached coordinator, lookup says no) -/
@@ -256,6 +315,7 @@ def proj (s : Sys) (i : Nat) : Op → POp
   | .reply r => if s.active = true then .verdict (pverdictFor r i) else .nop
   | .release force => if force = true ∧ s.active = true then .nop else .release force
   | .dropBroker => .nop
+  | .manageFailed _ => .nop
 
 def stepParts (s : Sys) (op : Op) : List PState :=
   s.parts.mapIdx (fun i p => pstep p (proj s i op))
@@ -275,6 +335,7 @@ def stepBroker (s : Sys) : Op → Bool
   | .lookup ok => if s.active = true ∧ s.broker = false then ok else s.broker
   | .reply r => if s.active = true then (s.broker && !replyDrops s.parts r) else s.broker
   | .dropBroker => false
+  | .manageFailed b => b
   | _ => s.broker
 
 def stepActive (s : Sys) (op : Op) : Bool :=
